@@ -114,3 +114,36 @@ M.contract('xtuml.meta.MetaClass.new@defaults', [('self', MC)], returns=INST, st
                                'others-untouched': 'all(implies(x is not inst, same(x.__dict__, old(x.__dict__))) for x in anyref("Class"))'}, modifies=['Class.__dict__']),
                   },
            locals={'referential_attributes': MapT(STR, VAL)})
+
+# ---- MetaClass.new with positional arguments only (class without referential attributes): after the defaults, the j-th positional
+#      value is what the j-th declared attribute holds; attributes beyond the arguments keep their typed default
+M.spec('''
+def positional_set(mc, inst, args, k):
+    return all(mc.attributes[j][0] in inst.__dict__ and same(inst.__dict__[mc.attributes[j][0]], args[j]) for j in range(0, k))
+
+def rest_defaulted(mc, inst, k):
+    return all(implies(k <= j, mc.attributes[j][0] in inst.__dict__ and typed_default(inst.__dict__[mc.attributes[j][0]], mc.attributes[j][1])) for j in range(0, len(mc.attributes)))
+
+def min2(a, b):
+    return a if a < b else b
+''')
+M.contract('xtuml.meta.MetaClass.new@positional', [('self', MC), ('*args', SeqT(VAL))], returns=INST, statics={'kwargs': PyDict({})},
+           requires={'wf': 'self.clazz is not None and self.clazz.metaclass is self and self.metamodel is not None and self.metamodel.id_generator is not None',
+                     'declared-names-distinct': 'distinct_names(self)',
+                     'known-types': 'all(known_type(a[1]) for a in self.attributes)',
+                     'no-referential-attributes': 'all(a[0] not in self.referential_attributes for a in self.attributes)',
+                     'plain-attributes-are-not-properties': 'all(all(not has_property(x, self.attributes[j][0]) for j in range(0, len(self.attributes))) for x in anyref("Class"))'},
+           ensures={'a-new-stored-instance': 'fresh(result) and self.storage == old(self.storage) + [result] and result.__metaclass__ is self',
+                    'positional-values-in-attribute-order': 'positional_set(self, result, args, min2(len(args), len(self.attributes)))',
+                    'remaining-attributes-keep-their-typed-default': 'rest_defaulted(self, result, min2(len(args), len(self.attributes)))'},
+           modifies=['self.storage', 'self.metamodel.id_generator._current'],
+           loops={0: Loop(inv={'iterates': '_seq == self.attributes', 'set-so-far': 'defaults_set(self, inst, _i)',
+                               'stored': 'self.storage == old(self.storage) + [inst] and inst.__metaclass__ is self and fresh(inst)',
+                               'others-untouched': 'all(implies(x is not inst, same(x.__dict__, old(x.__dict__))) for x in anyref("Class"))'}, modifies=['Class.__dict__']),
+                  1: Loop(inv={'pairs': 'len(_seq) == min2(len(args), len(self.attributes)) and all(_seq[j][0] == self.attributes[j] and same(_seq[j][1], args[j]) for j in range(0, len(_seq)))',
+                               'applied-so-far': 'positional_set(self, inst, args, _i)',
+                               'rest-defaulted': 'rest_defaulted(self, inst, _i)',
+                               'no-referential-value-collected': 'len(map_keys(referential_attributes)) == 0',
+                               'stored': 'self.storage == old(self.storage) + [inst] and inst.__metaclass__ is self and fresh(inst)',
+                               'others-untouched': 'all(implies(x is not inst, same(x.__dict__, old(x.__dict__))) for x in anyref("Class"))'}, modifies=['Class.__dict__'])},
+           locals={'referential_attributes': MapT(STR, VAL)})
